@@ -158,6 +158,26 @@ def check_formula(f, x, tol):
     return None
 
 
+def highs_itself_fails(f):
+    """independent translation of a compiled mixed-integer program into scipy.optimize.milp (not RSOME's def_sol): True when HiGHS
+    reports it infeasible/unbounded with presolve on but solves it with presolve off, i.e. the failure belongs to the installed
+    solver (seen: integer columns + duplicated equality rows), not to the interface code that the property is about"""
+    from scipy.optimize import milp, LinearConstraint, Bounds
+    vt = np.array(list(f.vtype))
+    lb, ub = np.array(f.lb, dtype=float), np.array(f.ub, dtype=float)
+    lb[vt == 'B'] = np.maximum(lb[vt == 'B'], 0.0)
+    ub[vt == 'B'] = np.minimum(ub[vt == 'B'], 1.0)
+    lb[vt != 'C'] = np.ceil(lb[vt != 'C'] - 1e-9)
+    ub[vt != 'C'] = np.floor(ub[vt != 'C'] + 1e-9)
+    lo = np.where(np.asarray(f.sense) == 1, f.const, -np.inf)
+    out = []
+    for pre in (True, False):
+        r = milp(np.asarray(f.obj, dtype=float).ravel(), integrality=(vt != 'C').astype(float), bounds=Bounds(lb, ub),
+                 constraints=LinearConstraint(f.linear, lo, np.asarray(f.const, dtype=float)), options={'presolve': pre})
+        out.append(r.status)
+    return out[0] in (2, 3) and out[1] == 0
+
+
 def ill_posed(results, tolv, delta=1e-6):
     """True when, for some interface that solved the program, relaxing every inequality row and every column bound by `delta`
     (the order of the solvers' feasibility tolerances) moves that same interface's optimal value by more than the comparison
@@ -243,6 +263,7 @@ class C11(Prop):
             'program has an integer column, a cone, or is infeasible/unbounded; distinct by IR hash.')
     assumptions = ['CLP, CPLEX, Mosek and COPT are not installed: their interface modules cannot be exercised',
                    'tolerance 1e-6 (LP/MILP) / 2e-4 (conic) relative on values, 1e-6 / 1e-5 on residuals; ECOS numerical failures on feasible programs are skipped',
+                   'the default interface reporting a feasible MILP infeasible is inconclusive when an independent scipy.milp call on the compiled program fails in the same way with presolve and succeeds without (HiGHS defect, not interface code)',
                    'a disagreement between two conic interfaces is inconclusive when relaxing rows and bounds by 1e-6 moves one interface\'s own optimal value by more than half the comparison tolerance (ill-posed program, e.g. 3*u**4 <= 0)']
 
     def examples(self, tier):
@@ -298,6 +319,9 @@ class C11(Prop):
                 if name.startswith('ecos') and fam != 'bbsum':
                     labels.append('unsolved:' + name)
                     continue
+                if name == 'default' and fam in ('milp', 'bbsum') and highs_itself_fails(f):
+                    return Outcome.inconclusive('HiGHS reports the compiled program infeasible with presolve and solves it without (solver defect, '
+                                                'reproduced with an independent scipy.milp call)', labels + ['highs_presolve_failure'])
                 return Outcome.fail('no_solution:%s:%s' % (fam, name), '%s reports no solution (status %s) for a feasible bounded program' % (name, sol.status if sol else None), labels)
             if 'lose' in str(sol.status) and fam != 'bbsum':
                 labels.append('inexact:' + name)
